@@ -206,6 +206,16 @@ def handle (req impl : String) : String × String :=
     match B k, num.toNat?, g.toNat? with
     | some k, some num, some g => let m := H (objKey k num g false); (m, cmp m impl)
     | _, _, _ => bad
+  | ["hash", alg, d] =>
+    match B d with
+    | some d =>
+      let r : Option Bytes := match alg with
+        | "md5" => some (md5 d) | "sha256" => some (sha256 d)
+        | "sha384" => some (sha384 d) | "sha512" => some (sha512 d) | _ => none
+      match r with
+      | some h => (H h, cmp (H h) impl)
+      | none => bad
+    | none => bad
   | ["h2b", p, s, u] =>
     match B p, B s, B u with
     | some p, some s, some u =>
